@@ -445,7 +445,8 @@ fn find_in_items(items: &[syn::Item], path: &[String]) -> Option<Found> {
                     Some((a, b)) => (a.to_string(), Some(b.to_string())),
                     None => (want.clone(), None),
                 };
-                if ty_base != want_ty {
+                // `std::sync::Arc<T>` is selected as `Arc`
+                if ty_base != want_ty && ty_base.rsplit("::").next() != Some(want_ty.as_str()) {
                     continue;
                 }
                 // the trait's last path segment; `Trait<Args>` in the target selects that
@@ -471,6 +472,18 @@ fn find_in_items(items: &[syn::Item], path: &[String]) -> Option<Found> {
                     }
                 }
                 for ii in &i.items {
+                    // an associated constant is printed as a parameterless function whose body is
+                    // the constant's expression
+                    if let syn::ImplItem::Const(c) = ii {
+                        if cfg_active(&c.attrs) && c.ident == path[1].as_str() && path.len() == 2 {
+                            return Some(Found {
+                                line: c.span().start().line,
+                                params: "[]".to_string(),
+                                body: format!("[{}]", expr(&c.expr)),
+                                tokens: c.expr.to_token_stream().to_string(),
+                            });
+                        }
+                    }
                     if let syn::ImplItem::Fn(f) = ii {
                         if !cfg_active(&f.attrs) {
                             continue;
@@ -542,6 +555,12 @@ struct CallCollector {
 impl<'ast> syn::visit::Visit<'ast> for CallCollector {
     fn visit_expr_method_call(&mut self, m: &'ast syn::ExprMethodCall) {
         self.calls.insert(format!("{}/{}", m.method, m.args.len()));
+        // a method called on a field is also listed as `field.method/n`: who touches `x.value.get()`
+        if let syn::Expr::Field(f) = &*m.receiver {
+            if let syn::Member::Named(n) = &f.member {
+                self.calls.insert(format!("{}.{}/{}", n, m.method, m.args.len()));
+            }
+        }
         syn::visit::visit_expr_method_call(self, m);
     }
     fn visit_expr_call(&mut self, c: &'ast syn::ExprCall) {
